@@ -366,7 +366,7 @@ func (s *Stage) Receive(file *sts.Partial, reader io.Reader) (err error) {
 		verifhook.Point("stage.d.full", path)
 		s.toCache(final, stateReceived)
 		s.logDebug("File received:", cmp.Source, cmp.Name)
-		verifhook.Point("stage.spawn.validate", final.name, s.rootDir)
+		verifhook.Point("stage.spawn.validate", final.name, final.hash, s.rootDir)
 		go s.processQueue(final)
 	}
 	return
@@ -837,7 +837,7 @@ func (s *Stage) processQueue(file *finalFile) {
 func (s *Stage) processHandler() {
 	for f := range s.validateCh {
 		s.process(f)
-		verifhook.Point("stage.done.validate", f.name, s.rootDir)
+		verifhook.Point("stage.done.validate", f.name, f.hash, s.rootDir)
 	}
 }
 
@@ -845,8 +845,8 @@ func (s *Stage) process(file *finalFile) {
 	// s.logDebug("Validating:", file.name)
 	// defer s.logDebug("Validated:", file.name)
 
-	verifhook.Point("stage.process.begin", file.name, s.rootDir)
-	defer verifhook.Point("stage.process.end", file.name, s.rootDir)
+	verifhook.Point("stage.process.begin", file.name, file.hash, s.rootDir)
+	defer verifhook.Point("stage.process.end", file.name, file.hash, s.rootDir)
 	fileLock := s.getPathLock(file.path)
 	fileLock.Lock()
 	defer fileLock.Unlock()
